@@ -112,6 +112,8 @@ def check_case(case, ex):
         m = M.build(hist, steps, upto=i)
         dec = rp66.decode_file(st['file'])
         v, s = expect.compare(m, dec, 'f0', env_tz=tz, clock_live=res['seams'].get('clock', False))
+        from .. import invariants as I
+        v = I.inventories(m, dec, 'f0', prop='C05') + v        # no object the user did not add, none missing
         for x in v:
             x['fp']['write_no'] = n + 1
             x['fp']['noise_before'] = Pm['noise']
